@@ -24,6 +24,7 @@ from crosshair.tracers import NoTracing
 
 CYC = {cyc!r}
 HLEN = {hlen}
+FIRST_MOD = {first_mod}      # -1: all histories; 0/1: only those whose first class index has this parity (two harnesses in parallel)
 
 def _graph():
     G = nx.DiGraph()
@@ -33,6 +34,9 @@ def _graph():
     else:
         for (u, v, f) in [("a", "b", 3), ("a", "c", 2), ("b", "d", 2), ("c", "d", 3), ("b", "c", 1)]:
             G.add_edge(u, v, flow=f)
+    for j, v in enumerate(sorted(G.nodes())):
+        G.nodes[v]["flow"] = 2 + (j % 3)          # node values too, so that node-weighted variants can share the same graph object
+        G.nodes[v]["len"] = 1 + (j % 2)
     G.graph["id"] = "shared"
     return G
 
@@ -47,6 +51,7 @@ if CYC:
         ("kMinPathErrorCycles+scale0", dict(k=2, weight_type=int, error_scaling=dict([(("a", "a"), 0)])), "subset_constraints"),
         ("kLeastAbsErrorsCycles+scale0", dict(k=2, weight_type=int, error_scaling=dict([(("a", "a"), 0)])), "subset_constraints"),
         ("kMinPathErrorCycles+percentile", dict(k=2, weight_type=int, elements_to_ignore_percentile=40), "subset_constraints"),
+        ("kLeastAbsErrorsCycles+node", dict(k=2, weight_type=int, flow_attr_origin="node"), None),
         ("MinErrorFlow+eps", dict(weight_type=int, few_flow_values_epsilon=0.5), None),
     ]
     CONSTRAINT = [[("a", "b"), ("b", "a")]]
@@ -64,6 +69,8 @@ else:
         ("kMinPathError+scale0", dict(k=2, weight_type=int, error_scaling=dict([(("a", "c"), 0)])), "subpath_constraints"),
         ("kLeastAbsErrors+scale0", dict(k=2, weight_type=int, error_scaling=dict([(("a", "c"), 0)])), "subpath_constraints"),
         ("MinFlowDecomp+scanning", dict(weight_type=int), "subpath_constraints"),
+        ("kMinPathError+node+length", dict(k=2, weight_type=int, flow_attr_origin="node", length_attr="len", path_length_ranges=[[0, 4], [5, 100]], path_length_factors=[1, 2]), None),
+        ("kMinPathError+edge+length", dict(k=2, weight_type=int, length_attr="len", path_length_ranges=[[0, 3], [4, 100]], path_length_factors=[1, 2]), "subpath_constraints"),
         ("MinErrorFlow+eps", dict(weight_type=int, few_flow_values_epsilon=0.5), None),
     ]
     CONSTRAINT = [[("a", "b"), ("b", "d")]]
@@ -91,7 +98,9 @@ def _run(ci, share_opts, share_lists, sh):
     elif share_opts:
         kw["optimization_options"] = sh["opts"]
         kw["solver_options"] = sh["sopts"]
-    if share_lists and ckey is None:
+    if share_lists and ckey is None and "+node" in name:
+        pass                                     # node-weighted variants take node names: nothing from the shared edge lists applies
+    elif share_lists and ckey is None:
         kw["elements_to_ignore"] = sh["ignore"]
     elif share_lists:
         kw[ckey] = sh["constraints"]
@@ -145,6 +154,7 @@ def history(cs: List[int], so: List[bool], sl: List[bool]) -> bool:
     pre: len(cs) == HLEN and len(so) == HLEN and len(sl) == HLEN
     pre: all(0 <= c < len(CLASSES) for c in cs)
     pre: all(so[i] or not sl[i] for i in range(HLEN))
+    pre: FIRST_MOD < 0 or cs[0] % 2 == FIRST_MOD
     post: _
     """
     with NoTracing():
@@ -171,7 +181,9 @@ history([0] * HLEN, [True] * HLEN, [True] * HLEN)
 
 
 def gen_tasks(tier, seed):
-    tasks = [{"kind": "xh", "cyc": False, "hlen": 2, "name": "dag-histories"}, {"kind": "xh", "cyc": True, "hlen": 2, "name": "cyclic-histories"}, {"kind": "defaults"}, {"kind": "resolve"}]
+    tasks = [{"kind": "xh", "cyc": False, "hlen": 2, "name": "dag-histories/even-first", "first_mod": 0}, {"kind": "xh", "cyc": False, "hlen": 2, "name": "dag-histories/odd-first", "first_mod": 1},
+             {"kind": "xh", "cyc": True, "hlen": 2, "name": "cyclic-histories/even-first", "first_mod": 0}, {"kind": "xh", "cyc": True, "hlen": 2, "name": "cyclic-histories/odd-first", "first_mod": 1},
+             {"kind": "defaults"}, {"kind": "resolve"}]
     if tier != "quick":
         tasks += [{"kind": "xh", "cyc": False, "hlen": 3, "name": "dag-histories-3"}, {"kind": "xh", "cyc": True, "hlen": 3, "name": "cyclic-histories-3"}]
     for i, t in enumerate(tasks):
@@ -180,7 +192,7 @@ def gen_tasks(tier, seed):
 
 
 def _src(task):
-    return HARNESS.format(cyc=task["cyc"], hlen=task["hlen"])
+    return HARNESS.format(cyc=task["cyc"], hlen=task["hlen"], first_mod=task.get("first_mod", -1))
 
 
 def run_task(task):
@@ -212,8 +224,8 @@ def run_task(task):
     return res
 
 
-DAG_NAMES = ["kFlowDecomp", "MinFlowDecomp", "kLeastAbsErrors", "kMinPathError", "kPathCover", "MinPathCover", "kLeastAbsErrors+superset", "kMinPathError+superset", "kMinPathError+scale0", "kLeastAbsErrors+scale0", "MinFlowDecomp+scanning", "MinErrorFlow+eps"]
-CYC_NAMES = ["kFlowDecompCycles", "MinFlowDecompCycles", "kLeastAbsErrorsCycles", "kMinPathErrorCycles", "kPathCoverCycles", "MinPathCoverCycles", "kMinPathErrorCycles+scale0", "kLeastAbsErrorsCycles+scale0", "kMinPathErrorCycles+percentile", "MinErrorFlow+eps"]
+DAG_NAMES = ["kFlowDecomp", "MinFlowDecomp", "kLeastAbsErrors", "kMinPathError", "kPathCover", "MinPathCover", "kLeastAbsErrors+superset", "kMinPathError+superset", "kMinPathError+scale0", "kLeastAbsErrors+scale0", "MinFlowDecomp+scanning", "kMinPathError+node+length", "kMinPathError+edge+length", "MinErrorFlow+eps"]
+CYC_NAMES = ["kFlowDecompCycles", "MinFlowDecompCycles", "kLeastAbsErrorsCycles", "kMinPathErrorCycles", "kPathCoverCycles", "MinPathCoverCycles", "kMinPathErrorCycles+scale0", "kLeastAbsErrorsCycles+scale0", "kMinPathErrorCycles+percentile", "kLeastAbsErrorsCycles+node", "MinErrorFlow+eps"]
 
 
 def _diag(task, call):
@@ -403,7 +415,7 @@ def replay(data):
 RULE = ("one evaluation = one history of model constructions/solves sharing the caller's graph, option dictionaries, constraint and ignore lists (class index and sharing bits symbolic); "
         "non-trivial = histories of length >= 2; plus one case per mutable default argument of an exported __init__")
 ASSUMPTIONS = [
-    "models are built and solved concretely under NoTracing on one DAG instance and one cyclic instance; CrossHair covers all histories of length 2 (3 in thorough) over 12 (10) class variants (incl. given weights, zero error scale, subgraph scanning, ignore percentile, MinErrorFlow with few-values epsilon) x 3 sharing patterns (nothing shared / option dicts / option dicts + constraint and ignore lists)",
+    "models are built and solved concretely under NoTracing on one DAG instance and one cyclic instance; CrossHair covers all histories of length 2 (3 in thorough) over 14 (11) class variants (incl. given weights, zero error scale, subgraph scanning, ignore percentile, MinErrorFlow with few-values epsilon, node-weighted variants with a length attribute) x 3 sharing patterns (nothing shared / option dicts / option dicts + constraint and ignore lists)",
     "checked after every step: deep equality (repr) of the caller's graph incl. attributes, both option dicts, constraint and ignore lists with their pre-image; (solved, objective, #routes) equals the same call on fresh copies; get_solution/get_objective_value repeated twice agree; a second solve() on one object (same verdict, optimum, number of routes) is checked concretely for every class in the 'resolve' task",
 ]
 
@@ -414,5 +426,5 @@ def main(tier, seed):
     for t in tasks:
         t["timeout"] = 140 if tier == "quick" else 900
     acc = core.run_tasks(run_task, tasks, deadline_s=175 if tier == "quick" else 2400)
-    bounds = {"history_len": 2 if tier == "quick" else 3, "class_variants": {"dag": 12, "cyclic": 10}, "sharing_patterns": 3}
+    bounds = {"history_len": 2 if tier == "quick" else 3, "class_variants": {"dag": 14, "cyclic": 11}, "sharing_patterns": 3}
     return core.finish(PID, tier, seed, LEVEL, acc, t0, RULE, ASSUMPTIONS, bounds, replay)
